@@ -133,6 +133,9 @@ func ListDiamonds(repo string, stores context2.Stores, opts ...Option) (model.Di
 
 	workers.Wait()
 
+	// batches come in key order: sort the whole result by start time
+	sort.Sort(diamonds)
+
 	return diamonds, err // we may have some batches resolved before the error occurred
 }
 
